@@ -340,6 +340,28 @@ def _compose_object(number, payload):
     if kind == 'cotp_request':
         from cryptoparser.tls.rdp import COTPConnectionRequest  # pylint: disable=import-outside-toplevel
         return COTPConnectionRequest(src_ref=number, user_data=payload)
+    if kind == 'ldap_response':
+        from cryptoparser.tls.ldap import LDAPExtendedResponseStartTLS, LDAPResultCode  # pylint: disable=import-outside-toplevel
+        if len(payload) > 0:
+            return None
+        codes = [LDAPResultCode.SUCCESS, LDAPResultCode.PROTOCOL_ERROR, LDAPResultCode.UNAVAILABLE]
+        return LDAPExtendedResponseStartTLS(codes[number % 3])
+    if kind == 'ldap_request':
+        from cryptoparser.tls.ldap import LDAPExtendedRequestStartTLS  # pylint: disable=import-outside-toplevel
+        if len(payload) > 0:
+            return None
+        return LDAPExtendedRequestStartTLS()
+    if kind == 'pg_sslrequest':
+        from cryptoparser.tls.postgresql import SslRequest  # pylint: disable=import-outside-toplevel
+        if len(payload) > 0:
+            return None
+        return SslRequest()
+    if kind == 'ssl2_error':
+        from cryptoparser.tls.record import SslRecord  # pylint: disable=import-outside-toplevel
+        from cryptoparser.tls.subprotocol import SslErrorMessage, SslErrorType  # pylint: disable=import-outside-toplevel
+        if len(payload) > 0:
+            return None
+        return SslRecord(SslErrorMessage(list(SslErrorType)[number % len(list(SslErrorType))]))
     raise NotImplementedError(kind)
 
 
@@ -353,6 +375,8 @@ def reader_loop(pay1: bytes, pay2: bytes, chunk1: int, chunk2: int, chunk3: int)
         if not 1 <= chunk <= P['CHUNK']:
             return True
     first, second = _compose_object(1, pay1), _compose_object(2, pay2)
+    if first is None or second is None:
+        return True
     cls = type(first)
     stream = bytes(first.compose()) + bytes(second.compose())
     delivered = 0
@@ -479,11 +503,11 @@ def shards_c04(tier, seed):  # pylint: disable=unused-argument
             out.append(Shard(MOD, 'prefix_needs', 'prefix/%s/cut%d' % (name, cut), dict(base, L=1, CUT=cut), 90,
                              bounds='buffer cut after %d header bytes, header integers full width' % cut))
     for kind in ('tls_record', 'mysql_record', 'tpkt', 'openvpn_tcp', 'server_key_exchange', 'ssh_kexdh_init',
-                 'cotp_request'):
+                 'cotp_request', 'ldap_response', 'ldap_request', 'pg_sslrequest', 'ssl2_error'):
         out.append(Shard(MOD, 'composed_cuts', 'composed_cuts/' + kind, {'KIND': kind, 'B': 4}, 120,
                          bounds='frames from the real compose(), payload <= 4 symbolic bytes, every cut position'))
-    for kind in ('tls_record', 'mysql_record', 'tpkt') + (('ssh_kexdh_init', 'openvpn_tcp')
-                                                           if tier == 'thorough' else ()):
+    for kind in ('tls_record', 'mysql_record', 'tpkt', 'ldap_response', 'ssl2_error', 'pg_sslrequest') + (
+            ('ssh_kexdh_init', 'openvpn_tcp', 'ldap_request') if tier == 'thorough' else ()):
         out.append(Shard(MOD, 'reader_loop', 'reader_loop/' + kind, {'KIND': kind, 'B': 2, 'CHUNK': 3}, 300,
                          bounds='two composed records, payloads <= 2 symbolic bytes, first three delivery chunks '
                                 'symbolic in 1..3, afterwards exactly the requested bytes'))
